@@ -132,6 +132,35 @@ def _trace_assignments(tr):
     return res
 
 
+def _file_scope_names(src_lines):
+    """names of objects declared at file scope of the generated unit (crude but conservative: anything that might be a global counts as one)"""
+    text = '\n'.join(src_lines)
+    text = re.sub(r'/\*.*?\*/', ' ', text, flags=re.S)
+    text = re.sub(r'^\s*#.*$', ' ', text, flags=re.M)
+    out, depth, cur = [], 0, []
+    for ch in text:
+        if ch == '{':
+            depth += 1
+        elif ch == '}':
+            depth -= 1
+        elif depth == 0:
+            cur.append(ch)
+    names = set()
+    for stmt in ''.join(cur).split(';'):
+        if '(' in stmt:
+            continue
+        for part in stmt.split(','):
+            m = re.search(r'(\w+)\s*(?:\[[^\]]*\]\s*)*(?:=.*)?$', part.strip(), flags=re.S)
+            if m:
+                names.add(m.group(1))
+    return names
+
+
+def _local_frame_artifact(ob, src_lines):
+    m = re.match(r'^Check that (\w+) is assignable$', ob.desc.strip())
+    return bool(m) and m.group(1) not in _file_scope_names(src_lines)
+
+
 def run_job(job, workdir, want_trace=True):
     r = JobResult(job)
     t0 = time.time()
@@ -219,6 +248,11 @@ def run_job(job, workdir, want_trace=True):
     elif any(o.desc.startswith('SHAPE:') for o in r.failed):
         # the code changed the *shape* of an algorithm the ghost model relies on: undecided, never a violation
         r.reason = 'shape guard: ' + '; '.join(o.desc for o in r.failed if o.desc.startswith('SHAPE:'))[:300]
+        r.failed = []
+    elif r.failed and all(_local_frame_artifact(o, src_lines) for o in r.failed):
+        # the only failures are frame checks on a plain local / by-value parameter of the extracted function (e.g. an iterator the recipe abstracts, now advanced inside a loop whose
+        # frame the recipe wrote): no property speaks about a local; the recipe does not cover this shape: undecided, never a violation
+        r.reason = 'frame of the recipe does not cover a local of the extracted body (extraction limit): ' + '; '.join(o.desc for o in r.failed)[:200]
         r.failed = []
     elif r.failed:
         r.status = 'failed'      # a counterexample outranks every vacuity guard
